@@ -150,13 +150,13 @@ def plan(prop, tier):
                     floor_evaluations=60000, exhaustive=True, assumptions=SIMK_ASSUMPTIONS + ["the madvise(MADV_DONTFORK) failure branch of the real mmap wrapper is bypassed by the hook and not covered"], also=[])
     if prop == "C08":
         rule = ("(a) random single-threaded histories with single-shot and multishot pool reads/receives, kept/edited (remove/truncate/clear/extend before release)/re-used for another read (also after being emptied)/dropped ReadBufs, operations abandoned in flight (pools of 1-8 buffers): pool ledger in the simulated kernel (every buffer-ring entry a10 publishes is checked: id handed out, own address/length, tail-head <= size), checksums of held ReadBufs, conservation at the end; "
-                "(b) marathon of 70000 read/release cycles so the 16-bit ring tail wraps; (c) baton-scheduler schedules: 2-4 threads releasing all buffers of a pool concurrently while a simulated kernel thread audits the ring at every scheduling point (incl. before the tail store); distinct = event-trace / switch-sequence hash")
+                "(b) marathon of 70000 read/release cycles so the 16-bit ring tail wraps; (d) real kernel (realmix): after a history in which no pool operation was abandoned, with no ReadBuf alive, as many pool reads as the pool has buffers must all succeed; (c) baton-scheduler schedules: 2-4 threads releasing all buffers of a pool concurrently while a simulated kernel thread audits the ring at every scheduling point (incl. before the tail store); distinct = event-trace / switch-sequence hash")
         if tier == "quick":
-            jobs = [gen_job("c08", "native-debug", 2500, 8), gen_job("c08wrap", "native-debug", 1, 2, timeout=600), gen_job("c08mt", "native-debug", 400, 8, timeout=600)]
+            jobs = [gen_job("c08", "native-debug", 2500, 8), gen_job("c08wrap", "native-debug", 1, 2, timeout=600), gen_job("c08mt", "native-debug", 400, 8, timeout=600), gen_job("realmix", "native-debug", 1000, 8, timeout=600)]
         else:
             jobs = [gen_job("c08", "native-debug", 40000, 16, timeout=1800), gen_job("c08", "native-release", 40000, 16, timeout=1800), gen_job("c08wrap", "native-release", 2, 8, timeout=1800, params={"cycles": "200000"}),
-                    gen_job("c08mt", "native-debug", 6000, 16, timeout=3000), gen_job("c08", "asan", 3000, 16, timeout=1800), gen_job("c08", "miri", 10, 16, timeout=2400), gen_job("c08free", "tsan", 30, 8, timeout=3000), gen_job("c08free", "miri", 3, 16, timeout=3000)]
-        return dict(jobs=jobs, level="exploration", rule=rule, floor_cells=["kind:ReadPool", "kind:ReadPoolReuse", "kind:MultishotRead", "kind:MultishotRecv", "simk_pbuf_selects", "simk_pbuf_returns", "marathon_tail_wraps", "release:pool=1", "release:pool=8", "drop:Multi:multishot-mid-stream"],
+                    gen_job("c08mt", "native-debug", 6000, 16, timeout=3000), gen_job("c08", "asan", 3000, 16, timeout=1800), gen_job("c08", "miri", 10, 16, timeout=2400), gen_job("c08free", "tsan", 30, 8, timeout=3000), gen_job("c08free", "miri", 3, 16, timeout=3000), gen_job("realmix", "native-debug", 30000, 16, timeout=3000)]
+        return dict(jobs=jobs, level="exploration", rule=rule, floor_cells=["kind:ReadPool", "kind:ReadPoolReuse", "real-pool:refilled-completely", "kind:MultishotRead", "kind:MultishotRecv", "simk_pbuf_selects", "simk_pbuf_returns", "marathon_tail_wraps", "release:pool=1", "release:pool=8", "drop:Multi:multishot-mid-stream"],
                     floor_evaluations=5000, assumptions=SIMK_ASSUMPTIONS, also=[])
     if prop == "C11":
         rule = ("baton-scheduler schedules of one ring thread calling Ring::poll(None) against 1-3 threads calling SubmissionQueue::wake, families: S1 concurrent wakes, S2 wakes completed before the poll starts, S3 loop where wake i+1 is issued only after poll i returned, S4 the first poll finds completions ready and the wakes are issued once it is running (a marker set at the first scheduling point inside a10's poll): the second poll must return; "
